@@ -160,10 +160,85 @@ def lw(cfg):
     for prefix, allowed in chain.items():
         cs = cfg.callers_of(lambda s, p=prefix: s.startswith(p))
         res.count('who-may-call obligations')
-        bad = [(f, e) for f, e in cs if not any(f.name.startswith(a) for a in allowed)]
+        bad = [(f, e) for f, e in cs if f.name.split('(')[0] not in allowed]
         res.ob(not bad, {'rule': 'LW-1', 'callee': prefix.rstrip('('), 'callers': sorted({sh(f.name) for f, e in cs}), 'verdict': 'discharged' if not bad else 'VIOLATION'})
         for f, e in bad:
             res.find(f, e.get('loc'), '`%s` is called from %s: lock-word transitions may only be made by a write_guard (upgrade in its constructor, unlock/obsolete through it)' % (prefix.rstrip('('), sh(f.name)), key='LW-1:caller:' + prefix, config=cfg.name)
+    # LW-7: every link of the chain really makes its own transition - the wrapper named after a transition calls that
+    # transition (and no other) on every path, and the primitive stores the value of its own transition
+    must = [
+        (WG, 'unlock', OL, 'write_unlock'), (WG, 'unlock_and_obsolete', OL, 'write_unlock_and_obsolete'),
+        (OL, 'write_unlock', AVT, 'write_unlock'), (OL, 'write_unlock_and_obsolete', AVT, 'write_unlock_and_obsolete'),
+        (OL, 'try_upgrade_to_write_lock', AVT, 'cas_acquire'), (WG, 'try_lock_upgrade', OL, 'try_upgrade_to_write_lock'),
+    ]
+    for cls, nm, ccls, cnm in must:
+        for f in _fn(cfg, cls, nm):
+            res.count('LW-7 wrappers')
+            dom = dominators(f)
+            calls = [(b, i, e) for b, i, e in f.elements() if e.get('k') == 'call' and e.get('cls') == ccls and e.get('name') == cnm and not is_assert_elem(e)]
+            ok = len(calls) == 1 and f.exit is not None and calls[0][0] in dom.get(f.exit, ())
+            res.ob(ok, {'rule': 'LW-7', 'function': sh(f.sig), 'fact': 'makes exactly the transition %s::%s, on every path' % (sh(ccls), cnm), 'verdict': 'discharged' if ok else 'VIOLATION'})
+            if not ok:
+                res.find(f, f.loc, '%s::%s does not call %s::%s exactly once on every path: the guard operation named after a lock-word transition must make that transition (an unlock_and_obsolete that merely unlocks leaves the retired node lockable again - obsolete is no longer final; an unlock that does not unlock leaves the lock held for ever)' % (sh(cls), nm, sh(ccls), cnm), key='LW-7:%s' % nm, config=cfg.name)
+    for f, e, op, orders, pos in writers:
+        if op != 'store' or f.short not in ('write_unlock', 'write_unlock_and_obsolete'):
+            continue
+        res.count('LW-7 wrappers')
+        kind = _stored_value_kind(f, e['args'][0] if e.get('args') else None, c_obs)
+        want = 'old+2' if f.short == 'write_unlock' else 'obsolete'
+        ok = kind == want
+        res.ob(ok, {'rule': 'LW-7', 'function': sh(f.sig), 'stored': kind, 'required': want, 'verdict': 'discharged' if ok else 'VIOLATION'})
+        if not ok:
+            res.find(f, e.get('loc'), 'atomic_version_type::%s stores %s, its transition is %s' % (f.short, kind, 'current locked word + 2' if want == 'old+2' else 'the obsolete constant'), key='LW-7:store:' + f.short, config=cfg.name)
+    res.floor('LW-7 wrappers', 8)
+    # LW-8: moving a read section transfers the whole snapshot on every path
+    for f in [x for x in cfg.functions if x.blocks and x.cls == RCS and x.short == 'operator=' and x.params and '&&' in (x.params[0].get('t') or '')]:
+        res.count('LW-8 section moves')
+        res.functions.add(f.sig)
+        pd = f.params[0]['did']
+
+        def assigned_field(e):
+            if e.get('k') == 'binop' and e.get('op') == '=':
+                l, r = f.strip_casts(e['l']), f.strip_casts(e['r'])
+            elif e.get('k') == 'call' and e.get('ck') == 'op' and e.get('op') == '=' and len(e.get('args', [])) == 2:
+                l, r = f.strip_casts(e['args'][0]), f.strip_casts(e['args'][1])
+                while isinstance(r, dict) and r.get('k') == 'call' and r.get('ck') == 'ctor' and (r.get('copy') or r.get('move')) and r.get('args'):
+                    r = f.strip_casts(r['args'][0])
+            else:
+                return None
+            if not (isinstance(l, dict) and l.get('k') == 'member' and isinstance(f.strip_casts(l.get('base')), dict) and f.strip_casts(l['base']).get('k') == 'this'):
+                return None
+            if isinstance(r, dict) and r.get('k') == 'member' and r.get('name') == l.get('name'):
+                rb = f.ref_of(r.get('base'))
+                if rb and rb[0] == pd:
+                    return l['name']
+            return None
+        from ..engine import forward
+
+        def trb(state, blk):
+            for e in blk['elems']:
+                a = assigned_field(e)
+                if a is not None:
+                    state = state | {a}
+            return state
+        inst = forward(f, frozenset(), trb, None, lambda a, b2: a & b2, key=lambda x: x)
+        need = {'lock', 'version'}
+        missing = set()
+        for b, blk in f.blocks.items():
+            if b not in inst:
+                continue
+            st = inst[b]
+            for e in blk['elems']:
+                a = assigned_field(e)
+                if a is not None:
+                    st = st | {a}
+                if e.get('k') == 'return':
+                    missing |= (need - st)
+        ok = not missing
+        res.ob(ok, {'rule': 'LW-8', 'function': sh(f.sig), 'fact': 'lock and version are both taken from the source on every path', 'verdict': 'discharged' if ok else 'VIOLATION (missing: %s)' % sorted(missing)})
+        if not ok:
+            res.find(f, f.loc, 'read_critical_section move assignment does not take over %s of the source on every path: after `rcs = lock.try_read_lock()` on an obsolete (or any other) lock the variable would still hold the previous lock and version - must_restart() is false, check() validates the OLD node and an upgrade succeeds although the lock the section was asked for is obsolete' % ' and '.join(sorted(missing)), key='LW-8:move-assign', config=cfg.name)
+    res.floor('LW-8 section moves', 1)
     # the two unlock paths need an active guard: unlock()/unlock_and_obsolete() have a documented precondition (LOCK-4 checks call sites); the destructor tests lock != nullptr
     for f in _fn(cfg, WG, '~write_guard'):
         res.count('guard destructor')
@@ -528,6 +603,32 @@ def lw6(cfg):
         if not ok:
             res.find(f, f.loc, 'read_critical_section::%s: optimistic_lock::%s gives the read-lock unit back %s, but the section does not clear its lock pointer %s: its destructor then gives the unit back a second time (read_lock_count underflows: the assertion `read_lock_count > 0` of the next check on this lock fires on a legal scan / lookup that merely lost a race), or a still valid section loses its unit' % (f.short, calls[0][2]['name'], {'always': 'always', 'on-false': 'when it returns false', 'never': 'never'}[rel], how),
                      key='LW-6:%s' % f.short, config=cfg.name)
+    # 3. the upgrade consumes the section: try_lock_upgrade clears the section's lock pointer on every path, so the lock-level
+    #    try_upgrade_to_write_lock must give the unit back on every path too (success: the unit turns into the write lock;
+    #    failure: it acts as a read unlock)
+    for f in cfg.functions:
+        if not f.blocks or f.cls != OL or f.short != 'try_upgrade_to_write_lock':
+            continue
+        decs = [(b, i) for b, i, e in f.elements() if e.get('k') == 'call' and e.get('name') == 'dec_read_lock_count' and not is_assert_elem(e)]
+        dom = dominators(f)
+        up_always = any(b in dom.get(f.exit, set()) for b, i in decs)
+        for g in cfg.functions:
+            if not g.blocks or g.cls != WG or g.short != 'try_lock_upgrade':
+                continue
+            n += 1
+            res.functions.add(g.sig)
+            gd = dominators(g)
+            clears = []
+            for b, i, e in g.elements():
+                if e.get('k') == 'binop' and e.get('op') == '=':
+                    l, r = g.strip_casts(e['l']), g.strip_casts(e['r'])
+                    if isinstance(l, dict) and l.get('k') == 'member' and l.get('name') == 'lock' and isinstance(r, dict) and r.get('k') == 'nullptr' and g.ref_of(l.get('base')) and g.ref_of(l['base'])[0] == g.params[0]['did']:
+                        clears.append(b)
+            sec_always = any(b in gd.get(g.exit, set()) for b in clears)
+            ok = up_always == sec_always and (up_always or not decs and not clears)
+            res.ob(ok, {'rule': 'LW-6', 'function': 'write_guard::try_lock_upgrade / optimistic_lock::try_upgrade_to_write_lock', 'section_pointer_cleared_on_every_path': sec_always, 'unit_given_back_on_every_path': up_always, 'verdict': 'discharged' if ok else 'VIOLATION'})
+            if not ok:
+                res.find(f, f.loc, 'the upgrade consumes the read section on %s (write_guard::try_lock_upgrade clears its lock pointer), but optimistic_lock::try_upgrade_to_write_lock gives the read-lock unit back %s: after a failed upgrade (a concurrent writer won) the unit of the consumed section is never returned, read_lock_count stays positive and check_on_dealloc asserts when the node is freed - on a legal schedule' % ('every path' if sec_always else 'some paths only', 'on every path' if up_always else 'on some paths only'), key='LW-6:upgrade', config=cfg.name)
     res.count('section operations that may give the unit back', n)
-    res.floor('section operations that may give the unit back', 2)
+    res.floor('section operations that may give the unit back', 3)
     return res
